@@ -175,6 +175,6 @@ class E2(Component):
         return case
 
 
-from .c02 import Bundled, Dense  # noqa: E402  (completeness is asserted by these components too)
+from .c02 import Bundled, Dense, Large  # noqa: E402  (completeness is asserted by these too)
 
-COMPONENTS = [Random(), E1(), E2(), Dense(), Bundled()]
+COMPONENTS = [Random(), E1(), E2(), Dense(), Bundled(), Large()]
